@@ -152,7 +152,9 @@ def generate(seed, tier, index, focus):
                 steps.append({"op": "blob", "c": rng.randrange(8), "device": rng.choice(["A", "B", "Z"]), "value": rng.choice(["Never", "Also", "Only"])})
             elif r < 0.47:
                 # a real driver starts snooping on a device through its own snooping client (a client of the router in its own right)
-                steps.append({"op": "snoop", "d": rng.randrange(6), "device": rng.choice(["A", "B", "Z"]), "name": rng.choice([None, None, "TEXT"])})
+                steps.append({"op": "snoop", "d": rng.randrange(6), "device": rng.choice(["A", "B", "Z"]), "name": rng.choice([None, None, "TEXT"]),
+                              # ... and may ask for the snooped device's BLOBs (a guider snooping a camera's images)
+                              "blob": rng.choice([None, None, "Also", "Only", "Never"])})
             else:
                 from_client = rng.random() < (0.65 if focus == "C04" else 0.3)
                 if from_client:
@@ -255,6 +257,8 @@ class Checker:
         if self.expect_sender is not None and not self.stack and kind in CLIENT_KINDS and sid != self.expect_sender:
             # (outermost call only: nested calls are other endpoints reacting to what they were handed)
             self.violate("C04.relay", f"{kind} sent by client {self.expect_sender} reached the router as coming from {sid}: the router cannot keep it from being handed back to its sender")
+        if self.expect_sender is not None and not self.stack and kind in CLIENT_KINDS:
+            sid = self.expect_sender  # the model follows who really sent it (a BLOB policy is the sending client's own)
         st = self.model.abstract_state()
         self.states.add(st)
         self.transitions.add((_sh(st), kind, dev, sid))
@@ -454,6 +458,9 @@ def execute_level1(scen):
                     chk.expect_sender = chk.idof(sc)
                     try:
                         drv.snoop_device(st["device"], st["name"])
+                        if st.get("blob"):
+                            sc.send_message(M.EnableBLOB(device=st["device"], value=st["blob"]))
+                            chk.probe("snooping_client_sets_blob_policy")
                     finally:
                         chk.expect_sender = None
                     chk.probe("driver_snoops_through_its_own_client")
